@@ -267,9 +267,21 @@ def make_plan(seed: int, tier: str, index: int) -> dict[str, Any]:
                     pair.insert(1, {"op": "parse", "text": p.choice(corpus)["id"], "via": "path",
                                     "select": None, "slot": 1 - slot})
                 ops[pos:pos] = pair
+    sh = rng.stream(seed, "shared-path")
+    if len(clients) > 1 and sub in ("none", "churn", "cache_clear") and sh.random() < 0.3:
+        # ONE path that every caller thread (re)writes and loads: overlapping loads of the same
+        # file, the file replaced while another thread's load of it is in flight.  A load returns
+        # the parse of SOME content the path held during the load (the caller's own, or what
+        # another thread wrote meanwhile)
+        knobs["shared_path"] = 1
+        pool = sh.sample([c["id"] for c in corpus], min(len(corpus), sh.choice([1, 2, 2, 3])))
+        for ops in clients:
+            for _ in range(sh.choice([1, 2, 3])):
+                ops.insert(sh.randint(0, len(ops)), {"op": "parse", "text": sh.choice(pool), "via": "path",
+                                                      "select": None, "shared_slot": 0})
     all_ops = [(ci, k, op) for ci, ops in enumerate(clients) for k, op in enumerate(ops)]
     for _ci, _k, op in all_ops:
-        if op["via"] == "path" and op.get("slot") is None and p.random() < 0.06:
+        if op["via"] == "path" and op.get("slot") is None and op.get("shared_slot") is None and p.random() < 0.06:
             op["special_file"] = True  # a FIFO / pipe / procfs-style file: stat says size 0
     if sub == "io":
         for _ci, _k, op in all_ops:
@@ -529,6 +541,7 @@ def execute(plan: dict[str, Any]) -> dict[str, Any]:
     data_of = {i: _bytes_of(c) for i, c in corpus.items()}
     violations: list[dict[str, Any]] = []
     probes: dict[str, int] = {}
+    shared_writes: list[Any] = []  # texts written to the path all caller threads share, in order
     fired: dict[str, int] = {}
     configured: dict[str, int] = {}
     sub = plan.get("sub_batch", "none")
@@ -682,6 +695,12 @@ def execute(plan: dict[str, Any]) -> dict[str, Any]:
                 if op.get("slot") is not None:
                     probes["parses_of_a_replaced_path"] = probes.get("parses_of_a_replaced_path", 0) + 1
                 sched.begin_op(client, k, abort)
+                if op.get("shared_slot") is not None:
+                    # this caller (re)writes the path, then loads it; no pre-emption point lies
+                    # between this record and the write itself (harness code is not traced)
+                    shared_writes.append(op["text"])
+                    shared_from = len(shared_writes) - 1
+                    probes["loads_of_the_shared_path"] = probes.get("loads_of_the_shared_path", 0) + 1
                 client.log_fault = ({"at": int(op["log_fault"]["at"]), "exc": cf_exc, "seen": 0,
                                      "fired": False} if cf_kind == "log" else None)
                 nested_out: list[Any] = []
@@ -787,6 +806,18 @@ def execute(plan: dict[str, Any]) -> dict[str, Any]:
                             out = {"kind": "observe-failed", "exc": exc_token(e)}
                     out["log"] = log
                     sched.record("op", ci, k, rng.digest(out))
+                    if op.get("shared_slot") is not None and out != ref:
+                        # what the path held during this load: the caller's own text and whatever
+                        # other threads wrote while the load was in flight
+                        for other_text in shared_writes[shared_from + 1:]:
+                            oref = refs.get(json.dumps(parseop.access_key({**op, "text": other_text})))
+                            if oref is not None and {x: y for x, y in oref.items() if x != "log"} == {
+                                    x: y for x, y in out.items() if x != "log"}:
+                                probes["shared_path_load_saw_another_threads_content"] = probes.get(
+                                    "shared_path_load_saw_another_threads_content", 0) + 1
+                                ref = oref
+                                key = json.dumps(parseop.access_key({**op, "text": other_text}))
+                                break
                     if out != ref and {x: y for x, y in out.items() if x != "log"} == {
                             x: y for x, y in ref.items() if x != "log"}:
                         # same chart, other reports: the statement speaks of the chart only (a
